@@ -97,6 +97,8 @@ pub struct World {
     burnt0: TokenAmount,
     /// (miner, deadline) of accepted Window PoSts carrying an invalid proof (candidates for a dispute)
     pub bad_posts: std::cell::RefCell<Vec<(String, u64)>>,
+    /// epoch at which each miner was created (its creation deposit starts vesting there)
+    pub created: BTreeMap<String, i64>,
 }
 
 impl World {
@@ -127,6 +129,7 @@ impl World {
         names.insert("w1".into(), bls[0]);
         names.insert("w2".into(), bls[1]);
         let mut miners = vec![];
+        let mut created = BTreeMap::new();
         for (i, (m, o, w)) in [("m1", "o1", "w1"), ("m2", "o2", "w2")].iter().enumerate() {
             if i >= n_miners {
                 break;
@@ -134,10 +137,11 @@ impl World {
             let (id, out) = create_miner(&v, &names[*o], &names[*w], POST, &TokenAmount::from_whole(200));
             assert!(out.ok(), "create miner: {}", out.message);
             names.insert(m.to_string(), id.unwrap());
+            created.insert(m.to_string(), v.epoch());
             miners.push(m.to_string());
         }
         let burnt0 = v.balance(&BURNT_FUNDS_ACTOR_ADDR);
-        World { boost: boost_amt, v, names, miners, burnt0, bad_posts: Default::default() }
+        World { boost: boost_amt, v, names, miners, burnt0, bad_posts: Default::default(), created }
     }
 
     pub fn mstate(&self, m: &str) -> MinerState {
@@ -266,7 +270,7 @@ impl World {
             "dlParts": deadlines.iter().map(|d| d["parts"].as_array().unwrap().len()).collect::<Vec<_>>(),
             "pps": st.proving_period_start, "curDl": st.current_deadline, "cronActive": st.deadline_cron_active,
             "earlyDls": bfv(&st.early_terminations), "alloc": bfv(&allocated), "pre": pres.into_iter().map(|x| x.1).collect::<Vec<_>>(),
-            "sectors": sectors, "dls": deadlines, "cfElapsed": info.consensus_fault_elapsed,
+            "sectors": sectors, "dls": deadlines, "cfElapsed": info.consensus_fault_elapsed, "createdAt": self.created[m],
             "owner": self.name_of(&info.owner), "worker": self.name_of(&info.worker), "ben": self.name_of(&info.beneficiary),
         })
     }
